@@ -626,9 +626,11 @@ def _worker_main(argv) -> int:
         m["ft"].update(shape_features(dsc))
         back = back_objs.pop("b", None)
         m["is_db"] = prop == "C05"
-        if OPEN_RULES and back is not None and m["res"].get("py_iso") is not None:
+        # (the view also carries C05-b's normalisation: needed for C05-b combined with C04-a, whatever generator-level rules are open)
+        if (OPEN_RULES or (prop == "C05" and m["ft"]["repeated_elems"])) and back is not None and m["res"].get("py_iso") is not None:
             try:
-                m["defect_view_ok"] = c04.py_iso(defect_view(dsc, prop == "C05"), back) is None
+                m["defect_view_diff"] = c04.py_iso(defect_view(dsc, prop == "C05"), back)     # first difference left after the recorded defects
+                m["defect_view_ok"] = m["defect_view_diff"] is None
             except Exception:  # noqa
                 m["defect_view_ok"] = False
         return m
@@ -1220,6 +1222,17 @@ def decide(rep: Report, m: Dict[str, Any], v, model_ok: bool, inst: Dict[str, in
         if altc and "Mapping" in (res["py_iso"] or "") and not ft["selfref_shared"]:
             inst["C04-a"] += 1     # combined with another class: the difference found is the mapping object of C04-a
             return
+        # C05-b and C04-a at once, in the subclass of C04-a where the model's single field order is inexact (code 3): the input is in BOTH
+        # decidable classes (a repeated collection element; a cycle first entered at an alternatively mapped object), the first difference is
+        # C05-b's shorter collection, and once the input is normalised as C05-b records (first occurrences only) the difference left is the
+        # mapping object of C04-a
+        left = m.get("defect_view_diff") or ""
+        if (code == 3 and altc and ft["repeated_elems"] and m.get("is_db") and not ft["selfref_shared"]
+                and "collection length" in (res["py_iso"] or "") and ": class " in left and left.endswith("Mapping")):
+            inst["C05-b"] += 1
+            inst["C04-a"] += 1
+            tallies["combined_b_a"] = tallies.get("combined_b_a", 0) + 1
+            return
     bad.append((m, f"code {code} frag {frag}: {res['py_iso']}"))
 
 
@@ -1400,6 +1413,7 @@ def run(tier: str, seed: int, replay=None) -> int:
     if tallies["stale"]:
         rep.note(f"{tallies['stale']} cases outside the fragment where impl = spec but the model predicts a failure (model inexact there / finding repaired)")
     dist["in_F"] = tallies["in_F"]
+    rep.extra["inexact_model_instances"] = {"C05-b+C04-a": tallies.get("combined_b_a", 0)}
     rep.extra["distribution"] = {"dataset": dist, "generated_models": gdist, "generated_model_info": gen_info}
     inst.pop("_c04c_open", None)
     rep.extra["known_finding_instances"] = inst
